@@ -332,12 +332,11 @@ def cmd_check(prop, tier):
 
     # 1. stored reproducers of known findings (open: must still fail -> KNOWN-FINDING line; fixed: must pass)
     kf_report = []
-    for entry in KF.entries(prop):
-        rp = entry.get("reproducer")
-        if not rp:
-            continue
-        rp = os.path.join(VERIF, rp)
-        rc, outp = fresh_replay(rp)
+    from concurrent.futures import ThreadPoolExecutor
+    todo = [(e, os.path.join(VERIF, e["reproducer"])) for e in KF.entries(prop) if e.get("reproducer")]
+    with ThreadPoolExecutor(max_workers=8) as ex:     # each replay is its own fresh interpreter
+        replayed = list(ex.map(lambda t: fresh_replay(t[1]), todo))
+    for (entry, rp), (rc, outp) in zip(todo, replayed):
         if entry["status"] == "open":
             if rc == 1:
                 lines.append(f"KNOWN-FINDING: property={prop} {entry['id']}: {entry['what']}")
